@@ -14,6 +14,9 @@ PROP = {
         "IdenaModel.Store.at_commit_older",
         "IdenaModel.Store.retention_commit",
         "IdenaModel.Store.desc_commit",
+        "IdenaModel.Store.reset_discards",
+        "IdenaModel.Store.reset_is_last_commit",
+        "IdenaModel.Store.reset_versions",
     ],
     "channels": [{"name": "C13", "exe": "oracle_c13"}, {"name": "C13state", "exe": "oracle_c13s"}],
     "trusted_base": [
